@@ -23,10 +23,28 @@ from __future__ import annotations
 
 import ast
 
-from .model import is_cached_property, Program, AnalysisError
+from .model import is_cached_property, Program, AnalysisError, norm
 
 META_ATTRS = {"shape", "ndim", "dtype", "size", "chunks", "nbytes", "itemsize", "npartitions", "chunksize"}
 BUFFER_ATTRS = {"_data": "the sample buffer is writable in place (out=, in-place operators, z.data[...] = v) without any attribute assignment"}
+
+
+VALUE_BASES = ("Quantity", "SpecificTypeQuantity", "Angle", "Longitude", "Latitude", "ndarray", "Time", "TimeDelta", "MaskedArray")
+
+
+def _bare_self_value(n, parents):
+    """`self` used as a VALUE (operand of arithmetic, argument of a call), not as the base of an attribute / item access."""
+    if not (isinstance(n, ast.Name) and n.id == "self" and isinstance(n.ctx, ast.Load)):
+        return False
+    par = parents.get(id(n))
+    if isinstance(par, (ast.Attribute, ast.Subscript)) and par.value is n:
+        return False
+    if isinstance(par, (ast.BinOp, ast.UnaryOp, ast.Compare)):
+        return True
+    if isinstance(par, ast.Call) and n in par.args:
+        f = norm(par.func)
+        return f not in ("isinstance", "type", "id", "super", "hasattr", "getattr", "len") and not f.endswith(".like")
+    return False
 
 
 def _is_self_attr(n):
@@ -79,6 +97,8 @@ class Reads:
                     out |= self._attr(fi, n, parents, depth)
                 elif isinstance(n, ast.Subscript) and isinstance(n.value, ast.Name) and n.value.id == "self" and isinstance(n.ctx, ast.Load):
                     out.add(("<items of self>", "items"))
+                elif _bare_self_value(n, parents):
+                    out.add(("<value of self>", "content"))
         self._fn_cache[key] = out
         return out
 
@@ -191,6 +211,48 @@ def _stores(fi):
     return out
 
 
+ARRAY_MAKERS = {"arange", "array", "asarray", "asanyarray", "zeros", "ones", "empty", "full", "linspace", "stack", "concatenate", "fftfreq", "rfftfreq",
+                "meshgrid", "indices", "tile", "repeat"}
+
+
+def _handed_out_array(fi, attr, store_node):
+    """The return statement of `fi` that hands out self.<attr> itself when the memoised value is array-valued; None otherwise.
+    For functools.cached_property the decorator stores and returns the getter's own result: `store_node` is then the function."""
+    fn = fi.node
+    if fi.name.startswith("_") and not (fi.name.startswith("__") and fi.name.endswith("__")):
+        return None          # a private helper: its callers are library code, whose writes the alias analysis (memoised-result roots) decides
+
+    def arrayish(e, seen=()):
+        for n in ast.walk(e):
+            if isinstance(n, ast.Call) and isinstance(n.func, ast.Attribute) and n.func.attr in ARRAY_MAKERS and isinstance(n.func.value, (ast.Name, ast.Attribute)) \
+                    and norm(n.func.value).split(".")[0] in ("np", "numpy", "da", "dask"):
+                return True
+            if isinstance(n, ast.Name) and isinstance(n.ctx, ast.Load) and n.id not in seen and n.id != "self":
+                for rhs in _local_defs(fn, n.id):
+                    if arrayish(rhs, seen + (n.id,)):
+                        return True
+        return False
+
+    def copied(e):
+        return isinstance(e, ast.Call) and ((isinstance(e.func, ast.Attribute) and e.func.attr in ("copy", "tolist")) or norm(e.func) in ("copy.copy", "copy.deepcopy", "np.array", "tuple"))
+    rets = [r for r in ast.walk(fn) if isinstance(r, ast.Return) and r.value is not None]
+    if isinstance(store_node, (ast.FunctionDef, ast.AsyncFunctionDef)):          # cached_property
+        for r in rets:
+            if not copied(r.value) and arrayish(r.value):
+                return r
+        return None
+    rhs = getattr(store_node, "value", None)
+    if rhs is None or not arrayish(rhs):
+        return None
+    for r in rets:
+        v = r.value
+        if _is_self_attr(v) and v.attr == attr:
+            return r
+        if isinstance(v, ast.Name) and any(_is_self_attr(d) and d.attr == attr for d in _local_defs(fn, v.id)):
+            return r
+    return None
+
+
 def analyse(prog: Program):
     """-> dict(derived=[...], violations=[...], undecided=[...], classes=n, stores=n)"""
     derived, violations, undecided = [], [], []
@@ -234,6 +296,15 @@ def analyse(prog: Program):
             if True:
                 if not deps:
                     continue
+                # a memoised ARRAY handed out by reference: the caller's in-place arithmetic on what a getter returned
+                # (f = z.labels; f -= ...) rewrites the memo although the state it was computed from is unchanged
+                ho = _handed_out_array(fi, attr, node)
+                if ho is not None and (ci.name, attr, "handed-out") not in reported:
+                    reported.add((ci.name, attr, "handed-out"))
+                    violations.append({"class": ci.name, "attr": attr, "defined_in": fi, "line": getattr(ho, "lineno", node.lineno), "dep": "(returned by reference)", "writer": None,
+                                       "what": f"self.{attr} memoises an array computed from {sorted(a for a, _ in deps)} and {fi.qualname} returns that very array: "
+                                               f"in-place arithmetic by the caller on the returned value corrupts the memo for every later reader "
+                                               f"(return a copy, or compute afresh)"})
                 rec = {"class": ci.name, "attr": attr, "in": fi.qualname, "where": f"{fi.where}", "line": node.lineno,
                        "deps": sorted(f"{a} ({m})" for a, m in deps)}
                 derived.append(rec)
@@ -243,6 +314,17 @@ def analyse(prog: Program):
                 scopes = [c for c in classes if ci in c.mro()]
                 for a, m in sorted(deps):
                     if m == "items":
+                        continue
+                    if a == "<value of self>":
+                        bases = [b for c_ in ci.mro() for b in getattr(c_, "ext_bases", [])]
+                        if any(b.split(".")[-1] in VALUE_BASES for b in bases):
+                            key = (ci.name, attr, a, "own value")
+                            if key not in reported:
+                                reported.add(key)
+                                violations.append({"class": ci.name, "attr": attr, "defined_in": fi, "line": node.lineno, "dep": "(the object's own numeric value)", "writer": None,
+                                                   "what": f"self.{attr} (set in {fi.qualname}) caches a value computed from the object's own numeric value; "
+                                                           f"{ci.name} inherits in-place operators and item assignment from {[b for b in bases if b.split('.')[-1] in VALUE_BASES][:1]}, "
+                                                           "which change that value without any attribute assignment, so the cache goes stale"})
                         continue
                     if m == "content" and a in BUFFER_ATTRS:
                         key = (ci.name, attr, a, "buffer")
